@@ -56,10 +56,18 @@ func TestVerifC16(t *testing.T) {
 		c16HeartbeatSender(out)
 	}()
 
+	var timing []string
+	timed := func(name string, f func()) {
+		t0 := time.Now()
+		f()
+		timing = append(timing, fmt.Sprintf("%s %.1fs", name, time.Since(t0).Seconds()))
+	}
+	defer func() { out.Note("C16 harness sections: " + strings.Join(timing, ", ")) }()
+
 	// ---- byte stream: corpus, exhaustive small scripts, random scripts
-	c16ReadCorpus(out)
-	c16ReadExhaustive(out, vlib.Budget(2, 3))
-	c16ReadRandom(out, r, vlib.Budget(1500, 60000))
+	timed("read-corpus", func() { c16ReadCorpus(out) })
+	timed("read-exhaustive", func() { c16ReadExhaustive(out, vlib.Budget(2, 3)) })
+	timed("read-random", func() { c16ReadRandom(out, r, vlib.Budget(1500, 40000)) })
 
 	// ---- flow control
 	for _, ops := range [][]string{
@@ -69,29 +77,44 @@ func TestVerifC16(t *testing.T) {
 	} {
 		c16FlowCase(out, ops)
 	}
-	nflow := vlib.Budget(60, 1500)
-	for i := 0; i < nflow; i++ {
-		c16FlowCase(out, c16FlowGen(r, r.Range(3, 40)))
-	}
+	timed("flow", func() {
+		nflow := vlib.Budget(60, 1000)
+		for i := 0; i < nflow; i++ {
+			c16FlowCase(out, c16FlowGen(r, r.Range(3, 40)))
+		}
+	})
 
 	// ---- certificates
-	c16Certificates(out, r, vlib.Budget(12, 300))
+	timed("certificates", func() { c16Certificates(out, r, vlib.Budget(12, 200)) })
 
 	// ---- listener, one macro step at a time
-	nl := vlib.Budget(150, 5000)
-	for i := 0; i < nl; i++ {
-		c16Controlled(out, r, r.Range(4, 40))
-	}
+	timed("listener-controlled", func() {
+		nl := vlib.Budget(150, 2500)
+		for i := 0; i < nl; i++ {
+			c16Controlled(out, r, r.Range(4, 40))
+		}
+	})
 
 	// ---- listener with concurrent pairs over loopback UDP
 	rounds := []int{2, 5, 8}
 	if thorough {
 		rounds = []int{2, 3, 8, 16, 24, 32, 32, 12, 6, 32}
 	}
-	for _, n := range rounds {
-		c16Concurrent(out, r, n)
-	}
-	bg.Wait()
+	timed("listener-concurrent", func() {
+		var wg sync.WaitGroup
+		for i, n := range rounds {
+			wg.Add(1)
+			go func(i, n int) {
+				defer wg.Done()
+				c16Concurrent(out, vlib.NewRand(fmt.Sprintf("C16-round-%d", i)), n)
+			}(i, n)
+			if i%3 == 2 {
+				wg.Wait() // three listeners at a time
+			}
+		}
+		wg.Wait()
+	})
+	timed("wait-for-sessions-and-watchdog", func() { bg.Wait() })
 }
 
 // c16Replay re-runs model lines (`sctp|…`, `hbsctp|…`, `flow|…`) of a replay file on the real code;
